@@ -471,6 +471,9 @@ impl<'n> XmlName<'n> {
                 format!("character `{ch}` is not allowed at the start of an XML name `{name}`")
                     .into(),
             )),
+            None => Err(SeError::Unsupported(
+                "an XML name cannot be empty".into(),
+            )),
             _ => match name.matches(|ch| !is_xml11_name_char(ch)).next() {
                 Some(s) => Err(SeError::Unsupported(
                     format!("character `{s}` is not allowed in an XML name `{name}`").into(),
